@@ -28,6 +28,7 @@ pub fn check_rest(d: &Digest, out: &mut Vec<Violation>) {
         crate::oracle5::c12(d, s, out);
     }
     crate::oracle5::c17(d, out);
+    crate::oracle4::shared_subscribers(d, out);
     c13_complete(d, out);
 }
 
